@@ -50,7 +50,9 @@ NodeFails(r) ==
      {("value-" \o r.ops[k][1]) : k \in {j \in 1..Len(r.ops) : ~OpValueOk(r.ops[j])}}
   \cup {("partial-" \o r.ops[k][1]) : k \in {j \in 1..Len(r.ops) : ~OpPartialsOk(r.ops[j])}}
 
+\* (an evaluator that could not be built for a recorded program is a failure too: a record judged by nobody is vacuous)
 WholeFails(r) ==
+  (IF r.mat \/ {"vm", "jit"} \subseteq DOMAIN r.got THEN {} ELSE {"whole-evaluator-missing"}) \cup
   {("whole-" \o k) : k \in {kk \in DOMAIN r.got :
         ~(Len(r.got[kk]) = r.nout /\ \A o \in 1..r.nout : \A c \in 1..4 : InEncl(r.enc[o][c], r.got[kk][o][c]))}}
 
